@@ -78,6 +78,18 @@ def helper_resolver(repo, pkg):
     return res
 
 
+def ties_are_arrays(repo):
+    """the tie indicators handed to the writer are numpy arrays: every list element create_ties_indicators returns is the
+    result of np.random.choice (C08.R5 decides the arguments of that draw)"""
+    f = repo.function('create_ties_indicators', required=False)
+    if f is None:
+        return False
+    draws = [n for n in ast.walk(f.node) if isinstance(n, ast.Call) and ast.unparse(n.func).endswith('random.choice')]
+    others = [n for n in ast.walk(f.node) if isinstance(n, (ast.List, ast.ListComp)) and not any(isinstance(x, ast.Call) and ast.unparse(x.func).endswith('random.choice') for x in ast.walk(n))
+              and any(isinstance(x, ast.Constant) and x.value in (0, 1) for x in ast.walk(n)) and isinstance(n, ast.ListComp)]
+    return bool(draws) and not others
+
+
 def find_reader(repo):
     """The tokeniser called by both row builders of the file reader."""
     callers = ['_create_pairs_row', '_create_student_ranks']
@@ -109,7 +121,7 @@ def run(rep, repo, tier):
     check_indicators(rep, repo)
     check_call_sites(rep, repo, fw, wf, rf)
     try:
-        wt = T.WriterTable(wf, resolver=helper_resolver(repo, repo.rel('generator')))
+        wt = T.WriterTable(wf, resolver=helper_resolver(repo, repo.rel('generator')), ties_are_arrays=ties_are_arrays(repo))
     except Unknown as u:
         rep.inconclusive('C13.R1', wf.where, 'tie writer loop is inside the recognised fragment', got=str(u))
         return
